@@ -211,6 +211,7 @@ type execCtx struct {
 	effects    *[]string // mutation side effects
 	inMutation bool
 	failSvc    map[string]bool // monolith only: every field owned by these services raises an error
+	laxLists   bool            // a service that breaks its own schema in one way: a null element of a [T!] list stays in the list
 }
 
 type collected struct {
@@ -434,6 +435,10 @@ func (x *execCtx) complete(t *ast.Type, fields []*ast.Field, raw interface{}, pa
 		broken := false
 		for i, el := range l {
 			v, ok := x.complete(t.Elem, fields, el, copyPath(path, i))
+			if !ok && x.laxLists {
+				out.Arr = append(out.Arr, ojNull)
+				continue
+			}
 			if !ok {
 				broken = true // a non-null element was null: the list becomes null; the other elements are still completed
 				continue
